@@ -374,6 +374,23 @@ static void skip_fixed(thrift_decoder_t* dec, size_t n) {
     }
 }
 
+/* Containers count against the same nesting limit as structs, so the
+ * recursion depth of thrift_skip is bounded by THRIFT_MAX_NESTING. */
+static bool enter_container(thrift_decoder_t* dec) {
+    if (dec->nesting_level >= THRIFT_MAX_NESTING) {
+        set_error(dec, CARQUET_ERROR_THRIFT_DECODE, "Container nesting too deep");
+        return false;
+    }
+    dec->nesting_level++;
+    return true;
+}
+
+static void leave_container(thrift_decoder_t* dec) {
+    if (dec->status == CARQUET_OK && dec->nesting_level > 0) {
+        dec->nesting_level--;
+    }
+}
+
 static inline bool is_bool_type(thrift_type_t t) {
     return t == THRIFT_TYPE_TRUE || t == THRIFT_TYPE_FALSE;
 }
@@ -422,6 +439,7 @@ void thrift_skip(thrift_decoder_t* dec, thrift_type_t type) {
             thrift_type_t elem_type;
             int32_t count;
             thrift_read_list_begin(dec, &elem_type, &count);
+            if (!enter_container(dec)) count = 0;
             for (int32_t i = 0; i < count && dec->status == CARQUET_OK; i++) {
                 if (is_bool_type(elem_type)) {
                     skip_fixed(dec, 1);  /* bool elements are one byte each */
@@ -429,6 +447,7 @@ void thrift_skip(thrift_decoder_t* dec, thrift_type_t type) {
                 }
                 thrift_skip(dec, elem_type);
             }
+            leave_container(dec);
             break;
         }
 
@@ -436,6 +455,7 @@ void thrift_skip(thrift_decoder_t* dec, thrift_type_t type) {
             thrift_type_t key_type, value_type;
             int32_t count;
             thrift_read_map_begin(dec, &key_type, &value_type, &count);
+            if (!enter_container(dec)) count = 0;
             for (int32_t i = 0; i < count && dec->status == CARQUET_OK; i++) {
                 if (is_bool_type(key_type)) {
                     skip_fixed(dec, 1);
@@ -448,6 +468,7 @@ void thrift_skip(thrift_decoder_t* dec, thrift_type_t type) {
                 }
                 thrift_skip(dec, value_type);
             }
+            leave_container(dec);
             break;
         }
 
